@@ -55,13 +55,18 @@ fn hist_mode(args: &Args, property: &str) -> Report {
     for h in 0..histories {
         let dir = scratch.join(format!("h{h}"));
         let _ = std::fs::create_dir_all(&dir);
-        let fp = hist::run_history(&mut rep, &dir, rng.fork(), &cfg);
+        let fp = if args.flag("big") { hist::run_big_history(&mut rep, &dir, rng.fork(), &cfg) } else { hist::run_history(&mut rep, &dir, rng.fork(), &cfg) };
         rep.nontrivial(fp ^ h64(&h.to_le_bytes()));
         rep.count("histories");
         let _ = std::fs::remove_dir_all(&dir);
     }
     for c in ["puts_acknowledged", "commits", "reopens", "materialisations", "frames_compared"] {
         rep.require(c);
+    }
+    if args.flag("big") {
+        rep.monitor = format!("history-big-payloads[{}]", cfg.monitors.join(","));
+        rep.rule = "histories of 4..6 incompressible puts of 2.5..9.5 MiB (the last one above 8 MiB) with small puts, commits and reopens in between: the log grows by doubling while megabytes of committed data sit behind it; same reference model and monitors; a case is one put; distinct = distinct histories".to_string();
+        rep.require("multi_megabyte_puts");
     }
     rep
 }
